@@ -1247,6 +1247,27 @@ func runLookupCase(ctx *Ctx, prop string, lc *LCase, caseIdx int) {
 					insts = append(insts, Inst{"after-refused-reload", rj})
 				}
 			}
+			// ... and a zero-value SlimTrie (a struct field, say) whose very first
+			// load was refused at the header: it holds nothing, and says so
+			if (caseIdx+oi)%16 == 3 {
+				z := &trie.SlimTrie{}
+				var zerr error
+				try(func() {
+					switch caseIdx % 3 {
+					case 0:
+						zerr = z.Unmarshal(nil)
+					case 1:
+						zerr = z.Unmarshal(stream[:min(len(stream), 5+caseIdx%25)])
+					default:
+						zerr = z.Unmarshal(withVersion(stream, "7.0.0"))
+					}
+				})
+				if zerr != nil {
+					ctx.Count("instances:zero-value-after-refused-first-load", 1)
+					zenv := &lookupEnv{ctx: ctx, prop: prop, lc: lc, opt: o, model: NewModel(nil, genVals(lc.R.Fork(), "none", 0, 0), o.D), inst: "zero-value-after-refused-first-load", st: z}
+					zenv.oracleC10(qs[:min(len(qs), 200)], false, true)
+				}
+			}
 		}
 		// C18 is about whatever the instance holds: after a direct load that was
 		// refused, an instance that answers as an empty trie must report (0 keys,
